@@ -131,7 +131,7 @@ def _grid_seq(tier, rng):
     """start frame in the non-rotating frames x all sequences of length 1..2 (quick: 3 start frames; thorough: all 7
     and length 3, plus 300 seeded sequences of length 4-5) over the 10 built-in frames + QSW/TNW, 1 seeded PSD matrix;
     initial covariance frame in {state frame, ITRF, QSW}; in a third of the cases each, the covariance is replaced on the way by a copy of itself / by the covariance
-    of a copy of its state"""
+    of a copy of its state, and in half of those the next hop is made through copy(frame=...) instead of the setter"""
     nt = len(CONC_TARGETS)
     maxlen = 2 if tier == "quick" else 3
     starts = range(len(INERTIAL)) if tier != "quick" else (0, 3, 4)
@@ -187,7 +187,11 @@ def _(c):
         cov = Cov(sv, C, f0name if f0name in LOCALS else get_frame(f0name))
         how, at = c.integer("copy"), c.integer("copy_at")
         for j, t in enumerate(seq):
-            cov.frame = t
+            if how and j == at + 1 and (at + j) % 2:
+                # this hop is made by asking for a converted copy instead of converting in place
+                cov = cov.copy(frame=t)
+            else:
+                cov.frame = t
             if how and j == at and j < len(seq) - 1:
                 # a copy made on the way stands for the original from then on
                 if how == 1:
